@@ -486,14 +486,26 @@ def match_paren(t, i):
     return -1
 
 
-def is_pointer_type(ty, ptr_typedefs):
-    ty = re.sub(r"\bconst\b|\bvolatile\b", " ", ty).strip()
+def is_pointer_type(ty, aliases, depth=0):
+    """does ordering / hashing a value of this type depend on an address?  T*, smart pointers, pair/tuple/array with such a
+    component, and typedef / using aliases of these (aliases: name -> aliased type text)"""
+    ty = re.sub(r"\bconst\b|\bvolatile\b|\btypename\b", " ", ty).strip()
+    ty = re.sub(r"\s*&+$", "", ty).strip()
     if ty.endswith("*"):
         return True
-    if re.match(r"(std::)?(unique_ptr|shared_ptr|weak_ptr)\s*<", ty):
+    if re.match(r"(std\s*::\s*)?(unique_ptr|shared_ptr|weak_ptr)\s*<", ty):
         return True
-    base = ty.split("::")[-1].strip()
-    return base in ptr_typedefs
+    m = re.match(r"(?:std\s*::\s*)?(pair|tuple|array)\s*<", ty)
+    if m:
+        lt = ty.index("<")
+        gt = match_angle(ty + ";", lt)
+        if gt > 0:
+            return any(is_pointer_type(c, aliases, depth) for c in split_top(ty[lt + 1:gt]))
+    if re.fullmatch(r"[\w:\s]+", ty) and depth < 6:
+        base = ty.split("::")[-1].strip()
+        if base in aliases and aliases[base].strip() != ty:
+            return is_pointer_type(aliases[base], aliases, depth + 1)
+    return False
 
 
 IDENT = r"[A-Za-z_]\w*"
@@ -539,12 +551,14 @@ class Scanner:
             raise TranslateError("the PARALLEL option is no longer OFF by default")
 
     def _pointer_typedefs(self):
-        out = set()
+        """alias name -> aliased type (typedef T name; / using name = T;), non-template aliases only"""
+        out = {}
         for s in self.sources:
-            for m in re.finditer(r"\btypedef\s+([^;{}]*?\*)\s*(" + IDENT + r")\s*;", s.bare):
-                out.add(m.group(2))
-            for m in re.finditer(r"\busing\s+(" + IDENT + r")\s*=\s*([^;{}]*?\*)\s*;", s.bare):
-                out.add(m.group(1))
+            for m in re.finditer(r"\btypedef\s+([^;{}()]*?[\w>*&])\s*\b(" + IDENT + r")\s*;", s.bare):
+                out.setdefault(m.group(2), m.group(1).strip())
+            for m in re.finditer(r"(?<!template)\busing\s+(" + IDENT + r")\s*=\s*([^;{}]*?)\s*;", s.bare):
+                if not re.search(r"template\s*<[^;]*$", s.bare[max(0, m.start() - 80):m.start()]):
+                    out.setdefault(m.group(1), m.group(2).strip())
         return out
 
     # -- generic attributes --
@@ -656,6 +670,9 @@ class Scanner:
                  "front", "back", "extract", "merge", "bucket", "key_comp", "value_comp"}
     ORDERQ = {"lower_bound", "upper_bound", "equal_range"}
 
+    CONTAINER_RX = re.compile(r"\b((?:std\s*::\s*)?)(set|multiset|map|multimap|priority_queue|unordered_set|unordered_map|unordered_multiset|"
+                              r"unordered_multimap|Map|VecMap|VecKeyMap|MapWithKeys|less|greater|less_equal|greater_equal|hash)\s*<")
+
     def scan_containers(self):
         rx = re.compile(r"\b((?:std\s*::\s*)?)(set|multiset|map|multimap|priority_queue|unordered_set|unordered_map|unordered_multiset|"
                         r"unordered_multimap|Map|VecMap|VecKeyMap|MapWithKeys|less|greater|less_equal|greater_equal|hash)\s*<")
@@ -683,6 +700,8 @@ class Scanner:
                 if name in self.FUNCTORS:
                     self.add(s, m.start(), self.FUNCTORS[name], "std::%s<%s>" % (name, re.sub(r"\s+", " ", key)), [])
                     continue
+                if s.func_at(m.start()) is None and s._inside_parens(m.start()):
+                    continue      # parameter of a function PROTOTYPE: the definition's parameter is the fact
                 fam = "KOrderedPtrContainer" if name in self.ORDERED else "KHashedPtrContainer"
                 attrs = []
                 extra = args[1:] if name in ("set", "multiset", "unordered_set", "unordered_multiset") else args[2:]
@@ -758,7 +777,7 @@ class Scanner:
                 if s is src and decl_pos <= m.start() <= decl_end + len(name) + 8:
                     continue
                 # another declaration of the same name with a non-pointer-keyed type shadows: skip functions that redeclare it
-                if not (f and f.body_start < decl_pos):
+                if f is None:
                     g = s.func_at(m.start())
                     if g and self._declares_local(s, g, name, m.start()):
                         continue
@@ -784,10 +803,39 @@ class Scanner:
                     continue      # member initialiser  name() / name{}
                 if re.match(r"\s*;", after) and re.search(r"(>|\bauto)\s*[&*]?\s*$", before):
                     continue      # another declaration line of the same member (e.g. in the header)
+                # passed to a function of src whose parameter is itself a pointer-keyed container (a fact of its own)
+                sa, sb = s.statement_at(m.start(), m.end())
+                call = self._enclosing_call(s.struct_txt[sa:sb], m.start() - sa)
+                if call and self._param_is_ptr_container(call[0], call[1]):
+                    notes.append("passed to %s %s:%d" % (call[0], s.rel, s.line_of(m.start())))
+                    continue
                 attrs.add("AEscapes"); notes.append("other use %s:%d" % (s.rel, s.line_of(m.start())))
         if not (attrs & {"AIterated", "AOrderQuery", "AEscapes"}):
             attrs.add("AMembershipOnly")
         return dict(attrs=sorted(attrs), note="%d use(s); %s" % (n_uses, "; ".join(notes[:6]) if notes else "insert/find/count/erase/[] only"))
+
+    def _param_is_ptr_container(self, callee, argi):
+        simple = callee.split("::")[-1].split(".")[-1].split("->")[-1]
+        cands = self.func_index.get(simple, [])
+        ok = 0
+        for g in cands:
+            head = g.file.bare[g.head:g.body_start]
+            mm = re.search(re.escape(simple) + r"\s*\(", head)
+            if not mm:
+                continue
+            rp = match_paren(head, mm.end() - 1)
+            ps = split_top(head[mm.end():rp]) if rp > 0 else []
+            if argi >= len(ps):
+                continue
+            mt = self.CONTAINER_RX.search(ps[argi])
+            if not mt:
+                return False
+            lt = mt.end() - 1
+            gt = match_angle(ps[argi] + ";", lt)
+            if gt < 0 or not is_pointer_type(split_top(ps[argi][lt + 1:gt])[0], self.ptr_typedefs):
+                return False
+            ok += 1
+        return ok > 0
 
     def _declares_local(self, s, func, name, before_pos):
         body = s.bare[func.head:func.body_end]
@@ -1502,7 +1550,7 @@ class Scanner:
                     if not mi or mi.group(1) not in ps:
                         continue
                     idx = ps.index(mi.group(1))
-                    rx = re.compile(r"(?<![~\w])" + re.escape(cname) + r"\b\s*(?:" + IDENT + r"\s*)?[({]")
+                    rx = re.compile(r"(?:(?<![~\w])" + re.escape(cname) + r"\b\s*(?:" + IDENT + r"\s*)?|\bmake_(?:unique|shared)\s*<\s*(?:\w+\s*::\s*)*" + re.escape(cname) + r"\s*>\s*)[({]")
                     for y in self.sources:
                         for m in rx.finditer(y.bare):
                             if re.search(r"\b(class|struct|friend)\s+$", y.bare[max(0, m.start() - 12):m.start()]):
